@@ -31,6 +31,27 @@ CLAIMED['C04'] = ('NumpyIndex, Gen_C04',
     'C04/rowvector-subselect is suppressed only for the exact known behaviour.',
     'DESIGN.md 3.2, 4 C04')
 
+CLAIMED['C01'] = ('FCSAscii, FCSText, FCSBytes, FCSReader, Gen_C01, MC_FCSReader, Trace_C01',
+    'byte-level TLA+ writer and reader of FCS files; TLC proves Read(Write(x)) = Masked(x) on every enumerated layout and '
+    'dumps (bytes, outcome); the spec-written bytes are loaded by the real FCSFile/FCSData; recorded loads of '
+    'hypothesis layouts are re-read by the trace spec',
+    'TLC checks the reader state machine (refinement to the composed function, forward progress, no data before the size '
+    'and map checks) and the round-trip theorem over every layout of the slices; the implementation loads every '
+    'spec-written file and must return the same limbs, shape and keywords or refuse. Exhaustive within the slices, '
+    'hypothesis sampling for 3 parameters / arbitrary padding / real 64-bit values.',
+    'Trusted: TLC, value parser, projection of numpy values to byte limbs. Ranges above 2^width are outside the property. '
+    'Refusal class (NotImplementedError vs other) is logged, not required.',
+    'DESIGN.md 3.1, 4 C01')
+CLAIMED['C16'] = ('FCSBytes, FCSReader, Gen_C01 (fault slices), MC_FCSReader',
+    'environment action Damage in the TLA+ model enumerates truncation at every byte, the empty file and 40 single-field '
+    'corruptions per file; TLC checks LoudFailure on the spec reader and dumps (damaged bytes, outcome); each damaged '
+    'file is loaded by the real reader',
+    'Exhaustive per file over the fault model: TLC shows that the specification reader refuses or reads the intact '
+    'content for every truncation, empty file and TEXT-offset corruption (geometry-field corruptions that leave a '
+    'self-consistent file are exempt and documented) and the real reader must behave exactly as the spec reader on all of them.',
+    'Trusted: TLC, value parser, fault model as written in Gen_C01. Files keep the segment order HEADER, TEXT, sTEXT, DATA.',
+    'DESIGN.md 3.1, 4 C16')
+
 NOT_APPLICABLE = {
     'C09': 'continuum numerics only (L-BFGS-B recovery of real parameters, real-analytic identities of closures): no '
            'state, history or case analysis for a TLA+ specification to enumerate; discrete fragment (Fit refuses <3 '
